@@ -345,7 +345,7 @@ func (e *Engine) newCtx(t *Target) *FnCtx {
 	c := &FnCtx{eng: e, w: e.w, pkg: t.pkg, info: t.pkg.TypesInfo, fname: t.Key, spec: t.spec,
 		declared: map[string]bool{}, counts: map[string]int{}, paramVals: map[string]Val{}, paramObjs: map[string]types.Object{},
 		unmodelled: map[string]bool{}, trusted: map[string]bool{}, strLits: map[string]string{}, factCache: map[string]bool{},
-		ghost: map[string]Val{}, deps: map[string]bool{}, callHeapKeys: map[string]bool{}, sig: t.sig}
+		ghost: map[string]Val{}, ghostFns: map[string]string{}, deps: map[string]bool{}, callHeapKeys: map[string]bool{}, sig: t.sig}
 	if t.decl != nil {
 		c.decl = t.decl
 	} else if t.lit != nil {
